@@ -70,6 +70,11 @@ def run_group(gname, tier, seed):
         can = fc.result()
         extra = [e.result() for e in extra]
     am = vlib.analyse(built["main"], main)
+    if any("resource limit" in u.lower() or "rlimit" in u.lower() for u in am["undecided"]):
+        # a unit ran out of solver resources: one retry with a 3x budget and a 5 min wall-clock cap before giving up (exit 2, never an alarm)
+        main = vlib.run_verus(built["main_path"], 20, 30, None, 300)
+        am = vlib.analyse(built["main"], main)
+        am["rlimit_retry"] = True
     ac = vlib.analyse(built["canary"], can)
     # proof hints are optional accelerators: a hint that no longer holds is removed and the
     # obligations are re-checked without it, so a failed hint is never itself a violation
